@@ -18,7 +18,10 @@ def base_cfg(todo_p, todo_q, todo_s, msg):
     params = {"p": ("%todo(" + (json.dumps(msg) if msg else "") + ")%") if todo_p else "pv",
               "q": "%todo()%" if todo_q else "q-%p%",
               "c": "%myfn(1)%"}
-    svcs = {"s": {"todo": True} if todo_s else {"constructor": "fx.NewA", "arguments": ["s"]},
+    # a todo service stays a placeholder whatever else it declares (a draft constructor, a value, type/getter/tags)
+    forms = [{"todo": True}, {"todo": True, "constructor": "fx.NewA", "arguments": ["draft"]}, {"todo": True, "value": "fx.GlobalVal"},
+             {"todo": True, "type": "*fx.Obj", "getter": "GetS", "tags": ["t"], "constructor": "fx.NewA"}]
+    svcs = {"s": forms[2 * todo_p + todo_q] if todo_s else {"constructor": "fx.NewA", "arguments": ["s"]},
             "u": {"constructor": "fx.NewB", "arguments": ["@s", "%q%"]},
             "n": {"constructor": "fx.NewC", "arguments": ["%p%", "%c%"], "scope": "non_shared"}}
     return {"meta": {"pkg": "gen", "imports": {"fx": gen.FX}, "functions": {"myfn": "fx.Fn1"}}, "parameters": params, "services": svcs}
